@@ -18,8 +18,20 @@ from . import common as c
 R = 0x73eda753299d7d483339d80809a1d80553bda402fffe5bfeffffffff00000001
 
 PRE = ("From Coq Require Import ZArith List. Import ListNotations.\n"
-       "From CB Require Import Crypto.PairingAlg Crypto.Bls Crypto.Ps.\n"
+       "From CB Require Import Crypto.PairingAlg Crypto.Bls Crypto.Ps Crypto.C19Exec.\n"
        "Local Open Scope Z_scope.\n")
+
+
+MAX_REPORTED = 8
+_suppressed = [0]
+
+
+def report(ctx, replay, summary, **kw):
+    """ctx.violation with a cap: the first MAX_REPORTED failing inputs are written out, the rest are counted."""
+    if len(ctx.violations) >= MAX_REPORTED:
+        _suppressed[0] += 1
+        return
+    ctx.violation(replay, summary, **kw)
 
 
 def zl(xs):
@@ -27,26 +39,26 @@ def zl(xs):
 
 
 # ---------------------------------------------------------------------------------------- BLS
+def hx(x):
+    """hex literals: Coq converts them to Z in linear time (decimal literals are quadratic)"""
+    return "0x%x" % int(x)
+
+
 def bls_expr(cs):
-    keys = [int(k) for k in cs["keys"]]
-    h = [int(x) for x in cs["h"]]
-    sigs = "; ".join("sign ZrP Z H1 %d %d" % (keys[k], m) for k, m in cs["signers"])
-    plain = "; ".join("verify_aggregate_sig ZrP Z Z Z.eqb (fun m => m) H1 (%s : list (Z * Z)) sg"
-                      % ("[" + "; ".join("(%d, %d)" % (m, keys[k]) for m, k in l) + "]") for _, l in cs["lists"])
-    hybrid = "; ".join("verify_aggregate_sig_hybrid ZrP Z H1 (%s : list (Z * list Z)) sg"
-                       % ("[" + "; ".join("(%d, %s)" % (m, zl(keys[k] for k in ks)) for m, ks in gr) + "]")
+    sigs = "; ".join("x_sign H1 (K %d%%nat) %d" % (k, m) for k, m in cs["signers"])
+    plain = "; ".join("[" + "; ".join("(%d, K %d%%nat)" % (m, k) for m, k in l) + "]" for _, l in cs["lists"])
+    hybrid = "; ".join("[" + "; ".join("(%d, %s)" % (m, zl("K %d%%nat" % k for k in ks)) for m, ks in gr) + "]"
                        for _, gr in cs["groups"])
-    trusted = "; ".join("verify_aggregate_sig_trusted_keys ZrP Z H1 %d %s sg" % (m, zl(keys[k] for k in ks))
-                        for _, m, ks in cs["tlists"])
+    trusted = "; ".join("(%d, %s)" % (m, zl("K %d%%nat" % k for k in ks)) for _, m, ks in cs["tlists"])
     single = ""
     if cs["signers"]:
         k0, m0 = cs["signers"][0]
-        single = "; ".join("verify ZrP Z H1 %d %d (sign ZrP Z H1 %d %d)" % (keys[k], m, keys[k0], m0)
+        single = "; ".join("x_verify H1 (K %d%%nat) %d (x_sign H1 (K %d%%nat) %d)" % (k, m, k0, m0)
                            for k, m in cs["singles"])
-    return ("let H1 := (fun m : Z => nth (Z.to_nat m) %s 0) in "
-            "let sg := aggregate_list ZrP ([%s] : list Z) in "
-            "(sg, ([%s] : list bool), ([%s] : list bool), ([%s] : list bool), ([%s] : list bool))"
-            % (zl(h), sigs, plain, hybrid, trusted, single))
+    return ("let H1 := x_tab %s in let K := x_key %s in "
+            "let sg := x_agg [%s] in "
+            "(sg, map (x_plain H1 sg) [%s], map (x_hybrid H1 sg) [%s], map (x_trusted H1 sg) [%s], ([%s] : list bool))"
+            % (zl(hx(x) for x in cs["h"]), zl(hx(k) for k in cs["keys"]), sigs, plain, hybrid, trusted, single))
 
 
 def bl(t):
@@ -89,32 +101,36 @@ def check_bls(ctx, cases, terms, stats):
         labels = {"plain": [l for l, _ in cs["lists"]], "hybrid": [l for l, _ in cs["groups"]],
                   "trusted": [l for l, _, _ in cs["tlists"]], "single": ["own", "otherkey", "othermsg", "both", "signer1"]}
         rep = {"mode": "bls", "seed": ctx.seed, "index": idx, "n": cs["n"], "kind": cs["kind"],
-               "dupmsg": cs["dupmsg"], "dupkey": cs["dupkey"]}
+               "dupmsg": cs["dupmsg"], "dupkey": cs["dupkey"], "secret_keys": cs["keys"], "message_lengths": cs["msglen"],
+               "signers(key index, message index)": cs["signers"],
+               "how": "harness/c19: `c19 bls <seed> <n>` regenerates the case at this index; ./check C19 --replay <this file>"}
+        claims = {"plain": [l for _, l in cs["lists"]], "hybrid": [g for _, g in cs["groups"]],
+                  "trusted": [[m, ks] for _, m, ks in cs["tlists"]], "single": cs["singles"]}
         stats["bls_sizes"][cs["n"]] = stats["bls_sizes"].get(cs["n"], 0) + 1
         if "panic" in cs["toy"] or "panic" in cs["real"]:
-            ctx.violation(dict(rep, toy=cs["toy"], real=cs["real"]), "BLS signing panicked")
+            report(ctx, dict(rep, toy=cs["toy"], real=cs["real"]), "BLS signing panicked")
             continue
         if int(cs["toy_sig"] or -1) != sg:
-            ctx.violation(dict(rep, model_sig=sg, toy_sig=cs["toy_sig"], layer="correspondence Bls.aggregate_list/sign vs aggregate_sig (toy pairing)"),
+            report(ctx, dict(rep, model_sig=sg, toy_sig=cs["toy_sig"], layer="correspondence Bls.aggregate_list/sign vs aggregate_sig (toy pairing)"),
                           "aggregate signature differs from the model (n=%d)" % cs["n"])
         for inst in ("toy", "real"):
             r = cs[inst]
             if r["rel"] is not True:
-                ctx.violation(dict(rep, instance=inst, what="sig != sum sk_i*H(m_i)"), "aggregate is not the sum of the individual signatures (%s)" % inst)
+                report(ctx, dict(rep, instance=inst, what="sig != sum sk_i*H(m_i)"), "aggregate is not the sum of the individual signatures (%s)" % inst)
             if r["agg_order"] is not True:
-                ctx.violation(dict(rep, instance=inst, what="aggregation order changes the aggregate"), "aggregation is order dependent (%s)" % inst)
+                report(ctx, dict(rep, instance=inst, what="aggregation order changes the aggregate"), "aggregation is order dependent (%s)" % inst)
             for kind in ("plain", "hybrid", "trusted", "single"):
                 for j, (impl, mod, orc) in enumerate(zip(r[kind], model[kind], oracle[kind])):
                     stats["decisions"] += 1
                     stats["accepts" if impl is True else "rejects"] += 1
                     lab = labels[kind][j] if j < len(labels[kind]) else str(j)
                     if impl != mod:
-                        ctx.violation(dict(rep, instance=inst, variant=kind, claim=lab, impl=impl, model=mod, oracle=orc,
+                        report(ctx, dict(rep, instance=inst, variant=kind, claim=lab, claimed=claims[kind][j], impl=impl, model=mod, oracle=orc,
                                            theorem="aggregate_accept_iff / aggregate_variants_agree / duplicates_and_empty_rejected"),
                                       "BLS %s verification (%s, claim '%s', n=%d, %s messages): implementation says %s, proved model says %s"
                                       % (kind, inst, lab, cs["n"], cs["kind"], impl, mod))
                     elif impl != orc:
-                        ctx.violation(dict(rep, instance=inst, variant=kind, claim=lab, impl=impl, oracle=orc),
+                        report(ctx, dict(rep, instance=inst, variant=kind, claim=lab, claimed=claims[kind][j], impl=impl, oracle=orc),
                                       "BLS %s verification (%s, claim '%s', n=%d): %s but the multiset oracle expects %s"
                                       % (kind, inst, lab, cs["n"], impl, orc))
         stats["nontrivial"].add(c.digest([cs["keys"][:3], cs["n"], cs["kind"], cs["toy"]["plain"], cs["toy"]["hybrid"]]))
@@ -136,19 +152,9 @@ def ps_expr(cs):
         rk = int(t["known"]["a"]) * inv(gam) % R
     ru = int(t["issued"]["a"]) * inv(gam) % R
     br, bt = int(t["blinded"]["r"]), int(t["blinded"]["t"])
-    e = ("let sk := mk_ps_sk ZrP %d %d %s %d in let pk := ps_pk_of ZrP sk in "
-         "let known := ps_sign_known ZrP sk %s %d in "
-         "let cmm := ps_commit ZrP pk %d %s in "
-         "let iss := ps_sign_unknown ZrP sk cmm %d in "
-         "let ret := ps_retrieve ZrP iss %d in "
-         "let bld := ps_blind ZrP ret %d %d in "
-         "let vs := (%s : list (list Z)) in "
-         "(known, cmm, iss, ret, bld, "
-         "match known with Some s => map (ps_verify ZrP pk s) vs | None => [] end, "
-         "map (ps_verify ZrP pk ret) vs, map (ps_verify ZrP pk iss) vs, "
-         "map (fun v => ps_verify_blinded ZrP pk bld v %d) vs)"
-         % (gam, gamt, zl(ys), int(cs["x"]), zl(ms), rk, int(cs["mask"]), zl(ms), ru, int(cs["mask"]), br, bt,
-            "[" + "; ".join(zl(v) for v in vecs) + "]", bt))
+    e = ("x_ps 0x%x 0x%x %s 0x%x %s 0x%x 0x%x 0x%x 0x%x 0x%x %s"
+         % (gam, gamt, zl(hx(y) for y in ys), int(cs["x"]), zl(hx(m) for m in ms), rk, int(cs["mask"]), ru, br, bt,
+            "[" + "; ".join(zl(hx(x) for x in v) for v in vecs) + "]"))
     return e
 
 
@@ -156,11 +162,12 @@ def check_ps(ctx, cases, terms, stats):
     for idx, (cs, t) in enumerate(zip(cases, terms)):
         known, cmm, iss, ret, bld, kv, rv, iv, bv = t
         rep = {"mode": "ps", "seed": ctx.seed, "index": idx, "key_len": cs["n"], "msg_len": cs["len"], "std_gens": cs["std_gens"],
-               "vectors": [l for l, _ in cs["vectors"]]}
+               "g = gamma*G1": cs["gamma"], "g_tilda = gamma_t*G2": cs["gamma_t"], "ys": cs["ys"], "x": cs["x"], "messages": cs["ms"],
+               "mask": cs["mask"], "vectors": cs["vectors"]}
         toy, real = cs["toy"], cs["real"]
         stats["ps_shapes"]["%d/%d" % (cs["n"], cs["len"])] = stats["ps_shapes"].get("%d/%d" % (cs["n"], cs["len"]), 0) + 1
         if toy.get("issued") == "PANIC" or real.get("issued") == "PANIC" or toy["known"] == "PANIC" or real["known"] == "PANIC":
-            ctx.violation(dict(rep, toy=toy, real=real), "PS signing panicked")
+            report(ctx, dict(rep, toy=toy, real=real), "PS signing panicked")
             continue
 
         def pt(j):
@@ -168,12 +175,12 @@ def check_ps(ctx, cases, terms, stats):
         # exact outputs on the toy pairing
         if known == "None":
             if toy["known"] != "ERR" or real["known"] != "ERR":
-                ctx.violation(dict(rep, what="sign_known_message should fail (message longer than key)"), "PS sign_known_message: length check differs from the model")
+                report(ctx, dict(rep, what="sign_known_message should fail (message longer than key)"), "PS sign_known_message: length check differs from the model")
         else:
             if toy["known"] == "ERR" or pt(toy["known"]) != tuple(known[1]):
-                ctx.violation(dict(rep, model=known, impl=toy["known"], layer="Ps.ps_sign_known vs sign_known_message (toy)"), "PS known-message signature differs from the model")
+                report(ctx, dict(rep, model=known, impl=toy["known"], layer="Ps.ps_sign_known vs sign_known_message (toy)"), "PS known-message signature differs from the model")
         if int(toy["cmm"]) != cmm or pt(toy["issued"]) != tuple(iss) or pt(toy["retrieved"]) != tuple(ret) or pt(toy["blinded"]) != tuple(bld):
-            ctx.violation(dict(rep, model={"cmm": cmm, "iss": iss, "ret": ret, "bld": bld},
+            report(ctx, dict(rep, model={"cmm": cmm, "iss": iss, "ret": ret, "bld": bld},
                                impl={k: toy[k] for k in ("cmm", "issued", "retrieved", "blinded")},
                                layer="Ps.ps_sign_unknown/ps_retrieve/ps_blind vs ps_sig (toy)"),
                           "PS blind issuance / retrieve / blind outputs differ from the model (key %d, msgs %d)" % (cs["n"], cs["len"]))
@@ -185,24 +192,24 @@ def check_ps(ctx, cases, terms, stats):
                     stats["decisions"] += 1
                     stats["accepts" if a is True else "rejects"] += 1
                     if a != b:
-                        ctx.violation(dict(rep, instance=inst, what=what, vector=names[j], impl=a, model=b,
+                        report(ctx, dict(rep, instance=inst, what=what, vector=names[j], impl=a, model=b,
                                            theorem="ps_verify_iff / ps_blind_issue_valid_on_exactly / ps_blind_preserves_validity"),
                                       "PS %s on vector '%s' (%s, key %d, msgs %d): implementation %s, proved model %s"
                                       % (what, names[j], inst, cs["n"], cs["len"], a, b))
                 if len(impl) != len(mod):
-                    ctx.violation(dict(rep, instance=inst, what=what, impl=impl, model=mod), "PS %s: result count differs" % what)
+                    report(ctx, dict(rep, instance=inst, what=what, impl=impl, model=mod), "PS %s: result count differs" % what)
             if r.get("retrieved_rel") is not True or (r["known_rel"] not in (True, None)):
-                ctx.violation(dict(rep, instance=inst, known_rel=r["known_rel"], retrieved_rel=r.get("retrieved_rel")),
+                report(ctx, dict(rep, instance=inst, known_rel=r["known_rel"], retrieved_rel=r.get("retrieved_rel")),
                               "PS signature does not have the shape (h, (x + sum m_i y_i) h) (%s)" % inst)
             # direct oracle: the unblinded signature verifies on the committed messages (when they fit) ...
             fits = cs["len"] <= cs["n"]
             if r["retrieved_verify"][0] is not fits:
-                ctx.violation(dict(rep, instance=inst, what="issue-unblind-verify on the committed vector", got=r["retrieved_verify"][0], expected=fits),
+                report(ctx, dict(rep, instance=inst, what="issue-unblind-verify on the committed vector", got=r["retrieved_verify"][0], expected=fits),
                               "PS blind issuance + unblinding: verification on the committed messages gives %s (%s)" % (r["retrieved_verify"][0], inst))
             # ... and on no vector that differs in a way the key cannot compensate
             for j, nm in enumerate(names):
                 if nm in ("changed", "extended") and r["retrieved_verify"][j] is True:
-                    ctx.violation(dict(rep, instance=inst, vector=nm), "PS unblinded signature verifies on a different message vector ('%s', %s)" % (nm, inst))
+                    report(ctx, dict(rep, instance=inst, vector=nm), "PS unblinded signature verifies on a different message vector ('%s', %s)" % (nm, inst))
         stats["nontrivial"].add(c.digest([cs["ys"], cs["ms"], cs["n"], toy["retrieved_verify"]]))
 
 
@@ -214,19 +221,19 @@ def check_pop(ctx, cases, stats):
             rep = {"mode": "pop", "seed": ctx.seed, "index": idx, "instance": inst, "ctxlen": cs["ctxlen"], "result": r}
             stats["decisions"] += 3 + len(r.get("other_ctx", [])) + len(r.get("flipped", []))
             if "panic" in r:
-                ctx.violation(rep, "proof of possession: prove panicked")
+                report(ctx, rep, "proof of possession: prove panicked")
                 continue
             if r["ok"] is not True:
-                ctx.violation(rep, "proof of possession does not verify for its own key and context (%s)" % inst)
+                report(ctx, rep, "proof of possession does not verify for its own key and context (%s)" % inst)
             if r["other_key"] is not False:
-                ctx.violation(rep, "proof of possession verifies under another key (%s)" % inst)
+                report(ctx, rep, "proof of possession verifies under another key (%s)" % inst)
             if any(x is not False for x in r["other_ctx"]) or r["other_ctx2"] is not False:
-                ctx.violation(rep, "proof of possession verifies in another context (%s): the context is not bound" % inst)
+                report(ctx, rep, "proof of possession verifies in another context (%s): the context is not bound" % inst)
             if r["rel"] is not True:
-                ctx.violation(dict(rep, layer="Bls.pop_prove structure: response = c*sk + w, challenge = RO(ctx, public, coeff, w*g2)"),
+                report(ctx, dict(rep, layer="Bls.pop_prove structure: response = c*sk + w, challenge = RO(ctx, public, coeff, w*g2)"),
                               "proof of possession does not have the structure of the model (%s)" % inst)
             if any(x not in (False, "noparse", "same") for x in r["flipped"]):
-                ctx.violation(rep, "a bit-flipped proof of possession still verifies (%s)" % inst)
+                report(ctx, rep, "a bit-flipped proof of possession still verifies (%s)" % inst)
         stats["nontrivial"].add(c.digest([cs["sk"], cs["ctxlen"]]))
 
 
@@ -234,33 +241,33 @@ def check_vrf(ctx, cases, stats):
     for idx, cs in enumerate(cases):
         rep = {"mode": "vrf", "seed": ctx.seed, "index": idx, "case": {k: v for k, v in cs.items() if k not in ("flips",)}}
         if "panic" in cs:
-            ctx.violation(rep, "%s: panic" % cs["k"])
+            report(ctx, rep, "%s: panic" % cs["k"])
             continue
         stats["decisions"] += 1
         if cs["k"] == "dlog25519":
             if cs["ok"] is not True or cs["other_key"] is not False or cs["other_ctx"] is not False or cs["rel"] is not True \
                     or any(x not in (False, "noparse", "same") for x in cs["flipped"]):
-                ctx.violation(rep, "ed25519 dlog proof: completeness / binding / structure check failed: %s" % json.dumps(cs)[:200])
+                report(ctx, rep, "ed25519 dlog proof: completeness / binding / structure check failed: %s" % json.dumps(cs)[:200])
             continue
         stats["vrf_alpha"][cs["alphalen"]] = stats["vrf_alpha"].get(cs["alphalen"], 0) + 1
         if cs["label"].startswith("rfc") and cs.get("vector_ok") is not True:
-            ctx.violation(rep, "ECVRF test vector %s (draft-irtf-cfrg-vrf A.3) not reproduced" % cs["label"])
+            report(ctx, rep, "ECVRF test vector %s (draft-irtf-cfrg-vrf A.3) not reproduced" % cs["label"])
         if cs["ok"] is not True or cs["roundtrip"] is not True:
-            ctx.violation(rep, "ECVRF proof does not verify for its own key and message")
+            report(ctx, rep, "ECVRF proof does not verify for its own key and message")
         if cs["deterministic"] is not True:
-            ctx.violation(rep, "ECVRF prove/to_hash is not deterministic")
+            report(ctx, rep, "ECVRF prove/to_hash is not deterministic")
         if cs["other_key"] is not False or any(x is not False for x in cs["other_msg"]):
-            ctx.violation(rep, "ECVRF proof verifies under another key or message")
+            report(ctx, rep, "ECVRF proof verifies under another key or message")
         bad = [k for k, v in cs["rel"].items() if v is not True]
         if bad:
-            ctx.violation(dict(rep, failed_relations=bad,
+            report(ctx, dict(rep, failed_relations=bad,
                                layer="Vrf.vrf_prove / vrf_verify / vrf_to_hash structure (Gamma = x*H, U = k*B, V = k*H, c = hash(H,Gamma,U,V), beta = hash(8*Gamma))"),
                           "ECVRF: relation(s) %s predicted by the model do not hold" % bad)
         f = cs["flips"]
         stats["flip_parsed"] += f["proof_rejected"] + f["key_rejected"]
         stats["flip_noparse"] += f["proof_noparse"] + f["key_noparse"]
         if f["proof_accepted"] or f["key_accepted"]:
-            ctx.violation(dict(rep, flips=f), "ECVRF: a single-bit change of the proof/key is still accepted (bits %s / %s)" % (f["proof_accepted"], f["key_accepted"]))
+            report(ctx, dict(rep, flips=f), "ECVRF: a single-bit change of the proof/key is still accepted (bits %s / %s)" % (f["proof_accepted"], f["key_accepted"]))
         stats["nontrivial"].add(c.digest([cs["pk"], cs["alphalen"]]))
 
 
@@ -268,17 +275,17 @@ def check_bits(ctx, cases, stats):
     for idx, cs in enumerate(cases):
         rep = {"mode": "bits", "seed": ctx.seed, "index": idx, "case": cs}
         if cs["ok"] is not True or cs["ps_ok"] is not True:
-            ctx.violation(rep, "signature does not verify for its own key and message")
+            report(ctx, rep, "signature does not verify for its own key and message")
         b, p = cs["bls"], cs["ps"]
         for k in ("sig_accepted", "key_accepted", "msg_accepted"):
             if b.get(k):
-                ctx.violation(rep, "BLS: single-bit change (%s, bits %s) still accepted" % (k, b[k]))
+                report(ctx, rep, "BLS: single-bit change (%s, bits %s) still accepted" % (k, b[k]))
         for k in ("sig_accepted", "msg_accepted"):
             if p.get(k):
-                ctx.violation(rep, "PS: single-bit change (%s, bits %s) still accepted" % (k, p[k]))
+                report(ctx, rep, "PS: single-bit change (%s, bits %s) still accepted" % (k, p[k]))
         for k in ("alg_sig", "alg_key"):
             if b.get(k) not in (False, None):
-                ctx.violation(rep, "BLS: perturbed %s still accepted" % k)
+                report(ctx, rep, "BLS: perturbed %s still accepted" % k)
         stats["flip_parsed"] += b["sig_rejected"] + b["key_rejected"] + b["msg_rejected"] + p["sig_rejected"] + p["msg_rejected"]
         stats["flip_noparse"] += b["sig_noparse"] + b["key_noparse"] + p["sig_noparse"] + p["msg_noparse"]
         stats["decisions"] += 1
@@ -313,9 +320,19 @@ def run(ctx):
     if not ok:
         proof_broken = info
         ctx.log("proof obligations broken:", info["failed_file"], info["error"][-400:])
-        c.coq_build(ctx, ["Crypto/Bls.vo", "Crypto/Ps.vo", "Crypto/Vrf.vo"])
+    okm, outm = c.coq_build(ctx, ["Crypto/Bls.vo", "Crypto/Ps.vo", "Crypto/Vrf.vo", "Crypto/C19Exec.vo"])
+    if not okm:
+        ctx.violation({"layer": "model build", "output": outm}, "the executable models no longer build", no_input=True)
+        return
 
     ok, binp = c.cargo_build(ctx, "c19")
+    import time
+    for _ in range(10):
+        # another property's harness crate being created at this moment makes the shared workspace unloadable
+        if ok or "workspace member" not in binp or "harness/c19" in binp:
+            break
+        time.sleep(30)
+        ok, binp = c.cargo_build(ctx, "c19")
     if not ok:
         ctx.violation({"layer": "harness build against /repo", "error": binp},
                       "harness no longer builds against the implementation", no_input=True)
@@ -325,32 +342,34 @@ def run(ctx):
              "flip_parsed": 0, "flip_noparse": 0}
     n_eval = 0
 
-    # --- BLS, small and large signer sets
-    for args, shard in ((["bls", ctx.seed, 14 if q else 300], 4), (["bls", ctx.seed + 1000, 3 if q else 24, 1], 1)):
-        cases = run_mode(ctx, binp, args)
-        if cases is None:
-            continue
-        try:
-            terms = c.coq_eval(ctx, "bls%d" % len(args), PRE, [bls_expr(cs) for cs in cases], shard=shard, timeout=1500)
-        except RuntimeError as e:
-            ctx.violation({"layer": "model evaluation (Bls.v on ZrP)", "error": str(e)[-1500:]}, "the BLS model could not be evaluated", no_input=True)
-            continue
-        check_bls(ctx, cases, terms, stats)
-        n_eval += len(cases)
-        if len(args) == 3:
-            ctx.cov["samples"].append({k: cases[1][k] for k in ("k", "kind", "n", "dupmsg", "dupkey", "signers", "lists")} | {"real": cases[1]["real"]["plain"]})
-
-    # --- PS
-    cases = run_mode(ctx, binp, ["ps", ctx.seed, 16 if q else 400])
-    if cases is not None:
-        try:
-            terms = c.coq_eval(ctx, "ps", PRE, [ps_expr(cs) for cs in cases], shard=4, timeout=1500)
-            check_ps(ctx, cases, terms, stats)
-            n_eval += len(cases)
-            ctx.cov["samples"].append({"k": "ps", "n": cases[4]["n"], "len": cases[4]["len"], "vectors": [v[0] for v in cases[4]["vectors"]],
-                                       "retrieved_verify": cases[4]["real"]["retrieved_verify"]})
-        except RuntimeError as e:
-            ctx.violation({"layer": "model evaluation (Ps.v on ZrP)", "error": str(e)[-1500:]}, "the PS model could not be evaluated", no_input=True)
+    # --- BLS (small and large signer sets) and PS: harness runs, then ONE sharded model evaluation
+    bls_small = run_mode(ctx, binp, ["bls", ctx.seed, 14 if q else 300]) or []
+    bls_big = run_mode(ctx, binp, ["bls", ctx.seed + 1000, 3 if q else 24, 1]) or []
+    ps_cases = run_mode(ctx, binp, ["ps", ctx.seed, 16 if q else 400]) or []
+    bad = [cs for cs in ps_cases if not isinstance(cs["toy"].get("issued"), dict) or not isinstance(cs["toy"].get("blinded"), dict)]
+    for cs in bad:
+        ctx.violation({"mode": "ps", "seed": ctx.seed, "case": {k: cs[k] for k in ("n", "len", "std_gens")}, "toy": cs["toy"]}, "PS signing panicked")
+    ps_cases = [cs for cs in ps_cases if cs not in bad]
+    # big cases first so that the longest shards start first; 2 small cases per shard
+    exprs = [bls_expr(cs) for cs in bls_big]
+    small_exprs = [bls_expr(cs) for cs in bls_small] + [ps_expr(cs) for cs in ps_cases]
+    try:
+        import concurrent.futures
+        with concurrent.futures.ThreadPoolExecutor(max_workers=2) as ex:
+            f_big = ex.submit(c.coq_eval, ctx, "big", PRE, exprs, 1, 1500)
+            f_small = ex.submit(c.coq_eval, ctx, "small", PRE, small_exprs, 3 if q else 12, 1500)
+            t_big, t_small = f_big.result(), f_small.result()
+        check_bls(ctx, bls_small, t_small[:len(bls_small)], stats)
+        check_bls(ctx, bls_big, t_big, stats)
+        check_ps(ctx, ps_cases, t_small[len(bls_small):], stats)
+        n_eval += len(bls_small) + len(bls_big) + len(ps_cases)
+        if len(bls_small) > 1:
+            ctx.cov["samples"].append({k: bls_small[1][k] for k in ("k", "kind", "n", "dupmsg", "dupkey", "signers", "lists")} | {"real": bls_small[1]["real"]["plain"]})
+        if len(ps_cases) > 4:
+            ctx.cov["samples"].append({"k": "ps", "n": ps_cases[4]["n"], "len": ps_cases[4]["len"], "vectors": [v[0] for v in ps_cases[4]["vectors"]],
+                                       "retrieved_verify": ps_cases[4]["real"]["retrieved_verify"]})
+    except RuntimeError as e:
+        ctx.violation({"layer": "model evaluation (Bls.v / Ps.v on ZrP)", "error": str(e)[-1500:]}, "the BLS/PS model could not be evaluated", no_input=True)
 
     # --- proofs of possession, VRF, bit perturbations (relations + direct oracles)
     cases = run_mode(ctx, binp, ["pop", ctx.seed, 12 if q else 300])
@@ -367,6 +386,9 @@ def run(ctx):
         check_bits(ctx, cases, stats)
         n_eval += len(cases)
 
+    if _suppressed[0]:
+        ctx.notes["further_failing_inputs_not_written_out"] = _suppressed[0]
+        ctx.log("%d further failing inputs not written out" % _suppressed[0])
     ctx.cov["evaluations"] = n_eval
     ctx.cov["traces_validated_against_impl"] = n_eval
     ctx.cov["distinct_nontrivial"] = len(stats["nontrivial"])
